@@ -104,6 +104,20 @@ pub fn check(world: &World, j: &Judgement, rr: &RunResult, cfg: &OracleCfg) -> V
         return out;
     }
 
+    // ---- retryable endpoint statuses (429 rate limit, 5xx): the property does not say whether a
+    // block whose request is first turned away and then answered follows the answer or fails the
+    // run; both are accepted (never a pass that the final answer does not justify). The allowance
+    // is the number of extra requests the retries may cost.
+    let mut retry_allowance: BTreeMap<String, Option<u32>> = BTreeMap::new();
+    for t in &j.ai_tokens {
+        if let Some(r) = world.ai.get(t) {
+            if r.uses_retries() {
+                retry_allowance.insert(t.clone(), r.retry_allowance());
+            }
+        }
+    }
+    let may_fail = !retry_allowance.is_empty();
+
     // ---- refinement
     match (&j.expected, obs) {
         (Expected::Rejected(_), Obs::Rejected(_)) => {}
@@ -147,6 +161,7 @@ pub fn check(world: &World, j: &Judgement, rr: &RunResult, cfg: &OracleCfg) -> V
                 ));
             }
         }
+        (Expected::Report(_), Obs::Failed(_)) if may_fail => {}
         (Expected::Report(exp), Obs::Failed(e)) => out.push(mm(
             "spurious-failure",
             format!("run must report {} diagnostic(s) but failed: {e}", exp.len()),
@@ -227,6 +242,14 @@ pub fn check(world: &World, j: &Judgement, rr: &RunResult, cfg: &OracleCfg) -> V
                     *allowed.entry(t).or_insert(0) += 1;
                 }
             }
+            for (t, extra) in &retry_allowance {
+                match extra {
+                    Some(k) => *allowed.entry(t.clone()).or_insert(0) += *k as i32,
+                    None => {
+                        allowed.insert(t.clone(), i32::MAX);
+                    }
+                }
+            }
             if let Some((t, n)) = seen
                 .iter()
                 .find(|(t, n)| **n > allowed.get(*t).copied().unwrap_or(0).max(1))
@@ -246,8 +269,16 @@ pub fn check(world: &World, j: &Judgement, rr: &RunResult, cfg: &OracleCfg) -> V
         }
         Expected::Report(_) => {
             // exactly one request per evaluated AI block
+            // (a block behind `k` retryable statuses costs k more: a complete run cannot have
+            // sent fewer, since each of those k requests ended without an answer, nor more)
             let got: Vec<String> = requests.iter().map(|r| r.token.clone()).collect();
-            let (missing, extra) = multiset_diff(&j.ai_tokens, &got);
+            let mut want = j.ai_tokens.clone();
+            for (t, extra) in &retry_allowance {
+                for _ in 0..extra.unwrap_or(0) {
+                    want.push(t.clone());
+                }
+            }
+            let (missing, extra) = multiset_diff(&want, &got);
             if matches!(obs, Obs::Report(_)) {
                 if !missing.is_empty() {
                     out.push(mm("ai-request-missing", format!("no request for {missing:?}")));
